@@ -31,6 +31,13 @@ func ReadStatus(filePtr *os.File,
 ) (fileStatus FileStatusEnum, replayStatus ReplayStateEnum, owningInstanceID int64, err error) {
 	var buffer [10]byte
 	buf, _, err := Read(filePtr, buffer[:])
+	if len(buf) < len(buffer) {
+		// nothing (or not enough) left in the file: Read returns no buffer at end of file
+		if err == nil {
+			err = ShortReadError("ReadStatus: status message is incomplete")
+		}
+		return Invalid, Invalid2, 0, err
+	}
 	return FileStatusEnum(buf[0]), ReplayStateEnum(buf[1]), io.ToInt64(buf[2:]), err
 }
 
